@@ -11,6 +11,8 @@
            <name>=<state at 0⁻>;<value at 0⁺>;<coefficient of δ(t) in its current / voltage>
     td.causal || <netlist lines> || <assignments>
         -> <all sources causal> <some initial condition given> <all signals causal with empty pre-history>
+    td.evalat <s> <T0> <w> <g> <v> <g2> <u> <T> || <netlist lines> || <assignments>
+        -> ok <C or L name>=<capacitor voltage / inductor current at the instant T>   (`evalAt`, exp through the stand-in E)
     td.model <s> <T0> <w> <g> <v> <g2> <u> || <netlist lines> || <assignments>
         -> ok <n> | singular | undef | diff <unknown> <model value> <transform of the signal> | slaw <clause>
         The C01 model (`Netlist.solve`, ivp analysis at the point s, source values = transforms of the waveforms)
@@ -227,6 +229,18 @@ def handle (toks : List String) : Option String :=
               | _ => false)
             let allC := p.assigned.all (fun a => a.2.2.pre.isEmpty && causalB a.2.2.post)
             s!"{srcC} {hasIC} {allC}"
+          else if cmd = "td.evalat" then
+            -- the SPEC function `evalAt` (Spec/Signal.lean) on the given signals at the instant T, exp read through the
+            -- stand-in E: the state a switched circuit hands over at the switching instant T
+            match C09.parseEPar head.dropLast, (head.getLast?.bind C09.parseGQ) with
+            | some ep, some T =>
+              let E := C09.mkE ep
+              let out := p.tcs.filterMap (fun (n, c) => match c.1 with
+                | .Cap n1 n2 _ _ => some s!"{n}={evalAt E (vpost p.x n1 n2) T}"
+                | .Ind _ _ m _ _ _ => some s!"{n}={evalAt E (p.x (.br m)).post T}"
+                | _ => none)
+              "ok " ++ " ".intercalate out
+            | _, _ => "bad-op"
           else if cmd = "td.model" then
             match C09.parseEPar head with
             | none => "bad-op"
